@@ -21,3 +21,8 @@ def lemma_psum_ext(xs, ys, n):
     k = 0
     while k < n:
         k += 1
+
+
+def lemma_ceil_div(n, c):
+    # requires c >= 1, n >= 0 ; ensures m = -(n // -c) satisfies  m*c >= n, (m-1)*c < n, (n >= 1 -> m >= 1), (n == 0 -> m == 0)
+    pass
